@@ -59,6 +59,8 @@ structure Cfg where
   svc : Int
   rel : Int
   dereg : Int
+  /-- long-history scenario of the correspondence harness: one UE, `pdu` establishment requests in a row -/
+  hist : Bool := false
   deriving Repr
 
 structure Choice where
@@ -369,11 +371,11 @@ def onRegistrationRequest (P : Prims) (cfg : Cfg) (chs : List Choice) (s : St) (
         | _, _ => s.fail k "no-choice-for-subscriber"
 
 def onPlainUplink (s : St) (k : Nat) (u : UeSt) (nas : Bytes) : St :=
-  -- the only plain message after the Registration Request: AUTHENTICATION RESPONSE
-  if byteAt nas 2 != 0x57 then s.fail k "unexpected-plain-nas" else
+  -- the only plain message after the Registration Request: AUTHENTICATION RESPONSE (message type 0x57)
   match parseNas Spec.Ts24501.authenticationResponse nas with
-  | none => s.fail k "nas-parse"
+  | none => s.fail k (if byteAt nas 2 != 0x57 then "unexpected-plain-nas" else "nas-parse")
   | some m =>
+    if m.mand[2]? != some [0x57] then s.fail k "unexpected-plain-nas" else
     if u.reg != .authSent then s.fail k "unexpected-authentication-response" else
     let s := if optIE m 0x2D == some u.aka.resStar then s else s.fail k "res-star"
     s.setUe { u with reg := .smcSent }
@@ -391,7 +393,10 @@ def onSessionMessage (s : St) (k : Nat) (u : UeSt) (m : Spec.Ts24501.SMsg) : St 
   let s := if ptiAssignable pti then s else s.fail k "pti-unassigned"
   if ty == 0xC1 then
     let s := if (parseNas Spec.Ts24501.pduSessionEstablishmentRequest payload).isSome then s else s.fail k "gsm-parse"
-    let s := if u.reg == .registered && u.sess == .none then s else s.fail k "prerequisite"
+    -- TS 24.501 6.4.1.7: an initial request for an existing PDU session makes the SMF release that session locally and
+    -- proceed, so a registered UE may ask again; what must not happen is a request before registration is complete
+    let s := if u.reg == .registered && (u.sess == .none || u.sess == .established || u.sess == .released) then s
+             else s.fail k "prerequisite"
     s.setUe { u with sess := .requested, psi := psi }
   else if ty == 0xD1 then
     let s := if (parseNas Spec.Ts24501.pduSessionReleaseRequest payload).isSome then s else s.fail k "gsm-parse"
@@ -576,7 +581,7 @@ def run (P : Prims) (life : Bool) (cfg : Cfg) (chs : List Choice) : St â†’ Nat â
 def natMin (a b : Int) : Nat := (if a â‰¤ b then a else b).toNat
 
 /-- how many procedures of each kind the requested counts allow -/
-def expectedEstablished (cfg : Cfg) : Nat := natMin cfg.reg cfg.pdu
+def expectedEstablished (cfg : Cfg) : Nat := if cfg.hist then (if cfg.reg â‰¤ 0 then 0 else cfg.pdu.toNat) else natMin cfg.reg cfg.pdu
 def expectedServices (cfg : Cfg) : Nat := natMin (expectedEstablished cfg) cfg.svc
 def expectedReleases (cfg : Cfg) : Nat := natMin (expectedEstablished cfg) cfg.rel
 def expectedDeregs (cfg : Cfg) : Nat := natMin cfg.reg cfg.dereg
